@@ -300,7 +300,7 @@ fn main() {
     }
 
     // ---------------------------------------------------------------- pair family (templates)
-    let n_pair = if thorough { 6000 } else { 480 };
+    let n_pair = if thorough { 3000 } else { 480 };
     let mut pair_idx: Vec<(usize, usize)> = Vec::new();
     // D2 neighbourhood first: all pairs of containers
     let containers: Vec<usize> = (0..n).filter(|i| is_container(&pool[*i])).collect();
@@ -384,8 +384,8 @@ fn main() {
     lookup_vals.push(map_of(vec![(ks("a"), Value::from(1u64))]));
     lookup_vals.push(Value::bytes(vec![0x61u8]));
 
-    let maps_per_size = if thorough { 14 } else { 2 };
-    let lookups_per_map = if thorough { lookup_vals.len() } else { 16 };
+    let maps_per_size = if thorough { 6 } else { 2 };
+    let lookups_per_map = if thorough { 0 } else { 16 };
     for size in 0..=16usize {
         for variant in 0..maps_per_size {
             // choose `size` distinct keys
@@ -499,7 +499,7 @@ fn main() {
     }
 
     // ---------------------------------------------------------------- membership in arrays / strings
-    let n_member = if thorough { 4000 } else { 320 };
+    let n_member = if thorough { 2000 } else { 320 };
     let arrays: Vec<Value> = {
         let mut v = Vec::new();
         for _ in 0..40 {
